@@ -2,10 +2,11 @@ import Driver.Latch
 import Driver.LockFam
 import Driver.Barrier
 import Driver.HB
+import Driver.Deferred
 import Driver.TripWire
 open Driver
 
-def comps : List Comp := [LatchD.comp, LockFamD.comp, BarrierD.comp, TripWireD.comp]
+def comps : List Comp := [LatchD.comp, LockFamD.comp, BarrierD.comp, DeferredD.comp, TripWireD.comp]
 
 def main (args : List String) : IO UInt32 := do
   match args with
